@@ -62,7 +62,7 @@ def main():
                 "replay_cmd_template": "./check %s --replay {path}" % pid,
                 "engine": "vsim+vmon",
                 "level_claimed": {"category": "exploration", "text": text, "design_ref": "DESIGN.md section " + ref},
-                "level_note": "Trusted base: the simulated nRF24L01(+) model (assumptions A1-A22, DESIGN.md 2.1), the virtual clock/scheduler, the reference models under refmodels/, and CPython 3.12. Claims are 'held on the executions observed', never 'verified'.",
+                "level_note": "Trusted base: the simulated nRF24L01(+) model (assumptions A1-A25, DESIGN.md 2.1 and 10.2), the virtual clock/scheduler, the reference models under refmodels/, and CPython 3.12. Claims are 'held on the executions observed', never 'verified'.",
                 "technique": TECH + tech,
             })
         else:
